@@ -16,6 +16,12 @@ void *vf_mmap(void *a, size_t len, int prot, int flags, int fd, off_t off) { voi
 int vf_munmap(void *a, size_t len) { pthread_mutex_lock(&map_mu); live_maps--; pthread_mutex_unlock(&map_mu); return munmap(a, len); }
 static int count_fds(void) { DIR *d = opendir("/proc/self/fd"); int n = 0; struct dirent *e; while ((e = readdir(d))) if (e->d_name[0] != '.') n++; closedir(d); return n - 1; }
 static int count_threads(void) { DIR *d = opendir("/proc/self/task"); int n = 0; struct dirent *e; while ((e = readdir(d))) if (e->d_name[0] != '.') n++; closedir(d); return n; }
+/* a joined thread can linger in /proc/self/task for a moment after pthread_join returns: wait for the count to settle */
+static int settled_threads(int expect) {
+	int n = count_threads();
+	for (int i = 0; i < 400 && n > expect; i++) { usleep(5000); n = count_threads(); }
+	return n;
+}
 static int count_dir(const char *p) { DIR *d = opendir(p); if (!d) return -1; int n = 0; struct dirent *e; while ((e = readdir(d))) if (strcmp(e->d_name, ".") && strcmp(e->d_name, "..")) n++; closedir(d); return n; }
 static char g_tmp[300]; static char g_fsdir[300];
 
@@ -191,9 +197,11 @@ static void check_case(rcase *c) {
 	vh_case_begin(render, c);
 	size_t heap[4]; int fds[4], maps[4], thr[4];
 	sigjmp_buf jb; bool aborted = false;
+	int thr0 = count_threads();         /* threads alive before the scenario; wait briefly for stragglers of the previous one */
+	for (int i = 0; i < 20; i++) { usleep(2000); int n = count_threads(); if (n == thr0) break; thr0 = n; }
 	for (int rep = 0; rep < 3 && !aborted; rep++) {
 		if (VH_TRY_ASSERT(jb)) { run_scenario(c); VH_END_ASSERT(); } else aborted = true;
-		heap[rep] = __sanitizer_get_current_allocated_bytes(); fds[rep] = count_fds(); maps[rep] = live_maps; thr[rep] = count_threads();
+		heap[rep] = __sanitizer_get_current_allocated_bytes(); fds[rep] = count_fds(); maps[rep] = live_maps; thr[rep] = settled_threads(thr0);
 	}
 	if (aborted) {
 		/* a library assertion stopped the scenario: this is "the process stops", not a call sequence that ends with everything destroyed */
@@ -202,7 +210,7 @@ static void check_case(rcase *c) {
 		if (heap[2] != heap[1]) { vh_violation("heap", "heap bytes in use grow by %zd on every repetition of the scenario (leak)", (ssize_t) (heap[2] - heap[1])); __lsan_do_recoverable_leak_check(); }
 		if (fds[2] != fds[1]) vh_violation("fd", "open descriptors grow by %d on every repetition of the scenario", fds[2] - fds[1]);
 		if (maps[2] != maps[1]) vh_violation("mapping", "reader mappings grow by %d on every repetition of the scenario", maps[2] - maps[1]);
-		if (thr[2] != thr[1]) vh_violation("thread", "threads grow by %d on every repetition of the scenario (a thread was never joined)", thr[2] - thr[1]);
+		if (thr[2] > thr0 && thr[2] > thr[1]) vh_violation("thread", "%d thread(s) more than before the scenario are still alive 2 s after everything was destroyed, and the number grows with every repetition", thr[2] - thr0);
 		int left = count_dir(g_tmp); if (left != 0) vh_violation("tempfile", "%d files left in the sorter temp dir", left);
 		n_leakfree++;
 	}
